@@ -452,6 +452,13 @@ func vStop(t Token, nested bool) bool {
 //@   ensures[non-nil] forall(j, 0, len(result), result[j] != nil)
 //@   loop 1 invariant forall(j, 0, len(out), out[j] != nil)
 
+// vItemEnd: an item of a block's contents (declaration or nested rule) ends at the first top-level `;`
+// or just after the first `{}` block (CSS Syntax 3 §5.4.4)
+func vItemEnd(t Token) bool {
+	_, isCurly := t.(CurlyBracketsBlock)
+	return isCurly || IsLiteral(t, ";")
+}
+
 //@ func consumeBlocksContent
 //@   props C06 C07
 //@   nopanic
@@ -459,7 +466,11 @@ func vStop(t Token, nested bool) bool {
 //@   requires forall(j, 0, len(tokens.tokens), tokens.tokens[j] != nil)
 //@   modifies tokens.index
 //@   ensures old(tokens.index) <= tokens.index
+//@   ensures[item-is-its-first-token] vItemEnd(firstToken) ==> tokens.index == old(tokens.index)
+//@   ensures[first-end] !vItemEnd(firstToken) ==> forall(j, old(tokens.index), tokens.index - 1, !vItemEnd(tokens.tokens[j]))
+//@   ensures[at-end] !vItemEnd(firstToken) ==> tokens.index == len(tokens.tokens) || (tokens.index > old(tokens.index) && vItemEnd(tokens.tokens[tokens.index-1]))
 //@   loop 1 invariant old(tokens.index) <= tokens.index && tokens.index <= len(tokens.tokens) && fresh(declarationTokens) && fresh(semicolonToken)
+//@   loop 1 invariant forall(j, old(tokens.index), tokens.index, !vItemEnd(tokens.tokens[j]))
 //@   loop 1 invariant forall(j, 0, len(declarationTokens), declarationTokens[j] != nil)
 //@   loop 1 invariant forall(j, 0, len(semicolonToken), semicolonToken[j] != nil)
 //@   loop 1 decreases len(tokens.tokens) - tokens.index
